@@ -7,9 +7,11 @@ Require Import FV.Gen.C18 FV.C18.Model FV.C18.LemmasSt FV.C18.LemmasFe FV.C18.Le
 (* obligations on the facts regenerated from /repo (Gen/C18.v) *)
 Theorem C18_source_facts :
   struct_callbacks_shape = true /\ struct_generated_methods_shape = true /\
+  struct_member_write_returns_readback = true /\
   floatenum_value_derived_from_index = true /\ floatenum_write_selects_closest = true /\
   floatenum_write_returns_current_value = true /\ floatenum_init_shape = true /\
-  check_limits_shape = true /\ check_function_installed_for_limits = true /\ limit_postfixes = true /\
+  check_limits_shape = true /\ check_function_installed_for_limits = true /\
+  limit_check_installed_per_class_dict = true /\ limit_postfixes = true /\
   limit_datatype_from_base = true /\ limitstype_refuses_inverted = true /\
   activate_control_shape = true /\ self_controlled_shape = true /\ update_target_lookup_by_member = true /\
   callbacks_before_update_sent = true.
@@ -32,6 +34,37 @@ Proof. intros L ops Hr. exact (LemmasSt.struct_agree L ops Hr). Qed.
 (* while the fault script is empty no loop is ever aborted (the guard above then only excludes the two assignments) *)
 Theorem C18_no_fault_no_partial_abort : forall L s o, LemmasSt.no_faults s -> St.partial_abort L s o = false.
 Proof. intros L s o H. exact (LemmasSt.no_fault_no_abort L s o H). Qed.
+
+(* WRITE OF A MEMBER in the layout with combined read_<struct> / write_<struct>, for EVERY coercion script of the hardware
+   behind write_<struct> (it rounds / clamps / replaces any member, also members that were not written), every fault script
+   and every layout (both methods written, or only one of them).  The generated write_<member> is
+   [write_<struct>(cached struct with the member replaced); return read_<member>()]:
+   (1) from every state in which struct and members agree (so after every admitted history): they agree afterwards, whether
+       the write succeeded or failed (RangeError: write_<struct> raised or answered outside the range; HardwareError: the
+       read back raised); a successful write replies the value the member parameter now holds - the value READ BACK; with a
+       user written read_<struct> struct = members = what the hardware holds; with a user written write_<struct> the reply is
+       what the hardware made of the request (clookup), not the request;
+   (2) after every admitted history (LemmasSt.run_ok: the guards of the open findings, as in the theorem above) followed by a
+       member write: struct and members agree member by member. *)
+Theorem C18_struct_member_write_consistent :
+  (forall L s i v, St.sl_rw L = true -> i < St.sl_n L -> LemmasSt.Inv L s ->
+     let '(s', r) := St.step L s (St.WriteM i v) in
+     St.cst s' = St.cmem s' /\ length (St.cmem s') = St.sl_n L /\
+     match r with
+     | ROk x => x = [nth i (St.cmem s') 0%Z] /\ x = [nth i (St.cst s') 0%Z] /\
+                (St.sl_sr L = true -> St.cmem s' = St.hw s') /\
+                (St.sl_sw L = true -> x = [St.clookup i v (St.csc s)])
+     | RErr c => c = 1 \/ c = 3
+     end) /\
+  (forall L ops i v, LemmasSt.run_ok L (St.init L) ops -> St.sl_rw L = true -> i < St.sl_n L ->
+     let s := St.run L (ops ++ [St.WriteM i v]) in
+     length (St.cst s) = St.sl_n L /\ length (St.cmem s) = St.sl_n L /\
+     forall j, j < St.sl_n L -> nth j (St.cst s) 0%Z = nth j (St.cmem s) 0%Z).
+Proof.
+  split.
+  - intros L s i v Hrw Hi HI. exact (LemmasSt.member_write_step L s i v Hrw Hi HI).
+  - intros L ops i v Hr Hrw Hi. exact (LemmasSt.member_write_after_history L ops i v Hr Hrw Hi).
+Qed.
 
 (* FLOAT/ENUM.  Full statement: after every history the value given to clients is the table value of the index.
    It fails on the fresh module and after a driver assignment to the float parameter (Refuted.v);
@@ -103,23 +136,35 @@ Proof.
   - intros L ops v H0 Hn. apply LemmasFe.value_from_init; auto. rewrite forallb_app, Hn. reflexivity.
 Qed.
 
-(* LIMITS.  For every layout (any subset of a_min / a_max / a_limits, also all three together) and from every state (so in
-   particular after every history, including driver assignments to the limits): an accepted write lies inside the datatype
-   range and inside EVERY limit parameter of the module, and is stored; a refused write changes nothing.
-   (Until e1c174f a_limits shadowed a_min / a_max; the guard and the witness are gone.) *)
-Theorem C18_limits_respected : forall L s v s',
-  (forall r, Li.step L s (Li.WriteA v) = (s', ROk r) -> LemmasLi.within_all L s v /\ Li.va s' = v /\ r = [v]) /\
-  (forall c, Li.step L s (Li.WriteA v) = (s', RErr c) -> s' = s /\ c = 1).
+(* LIMITS.  For every class layout of the module - which class of the hierarchy defines the parameter, which classes (also
+   plain mixins, also several) define a_min / a_max / a_limits as Limit(), which classes carry a check_a written by the
+   programmer - with the list of check functions DERIVED as HasAccessibles.__init_subclass__ derives it (class by class,
+   `check_a not in base.__dict__`), and from every state (so after every history, including driver assignments to the limits):
+   an accepted write lies inside the datatype range and inside EVERY limit parameter of the module and is stored; a refused
+   write changes nothing.  LemmasLi.layout_wf: the module class derives from Module, a is an accessible, and a check_a written
+   in the very class that defines a limit parameter calls checkLimits itself (it replaces the generated one by design).
+   (Until e1c174f a_limits shadowed a_min / a_max; the guard and the witness are gone.)
+   Second part: the verdict is the same in every class layout - accepted iff inside the datatype range, accepted by checkLimits
+   and (if a check_a exists anywhere) by the plausibility test of the programmer. *)
+Theorem C18_limits_respected :
+  (forall L s v s', LemmasLi.layout_wf L ->
+     (forall r, Li.step L s (Li.WriteA v) = (s', ROk r) -> LemmasLi.within_all L s v /\ Li.va s' = v /\ r = [v]) /\
+     (forall c, Li.step L s (Li.WriteA v) = (s', RErr c) -> s' = s /\ c = 1)) /\
+  (forall L s v, LemmasLi.layout_wf L ->
+     ((exists s', Li.step L s (Li.WriteA v) = (s', ROk [v])) <->
+      Li.in_base L v = true /\ Li.check_limits L s v = true /\ (LemmasLi.any_user L = true -> Li.plausible v = true))).
 Proof.
-  intros L s v s'. split.
-  - intros r H. exact (LemmasLi.write_accepted_within_all L s v s' r H).
-  - intros c H. exact (LemmasLi.write_refused_unchanged L s v s' c H).
+  split.
+  - intros L s v s' Hwf. split.
+    + intros r H. exact (LemmasLi.write_accepted_within_all L s v s' r Hwf H).
+    + intros c H. exact (LemmasLi.write_refused_unchanged L s v s' c H).
+  - intros L s v Hwf. exact (LemmasLi.write_verdict_layout_independent L s v Hwf).
 Qed.
 
-(* an inverted pair in force (a_limits hi < lo, or a_min > a_max, in any layout) refuses every write of the base parameter; a LimitsType
+(* an inverted pair in force (a_limits hi < lo, or a_min > a_max, in any class layout) refuses every write of the base parameter; a LimitsType
    parameter refuses an inverted pair and never holds one, whatever the history *)
 Theorem C18_inverted_refused :
-  (forall L s v, LemmasLi.inverted_in_force L s -> Li.step L s (Li.WriteA v) = (s, RErr 1)) /\
+  (forall L s v, LemmasLi.layout_wf L -> LemmasLi.inverted_in_force L s -> Li.step L s (Li.WriteA v) = (s, RErr 1)) /\
   (forall L s lo hi, (hi < lo)%Z -> Li.step L s (Li.WriteRng lo hi) = (s, RErr 1)) /\
   (forall L ops, (fst (Li.vrng (Li.run L ops)) <= snd (Li.vrng (Li.run L ops)))%Z).
 Proof.
@@ -200,9 +245,44 @@ Example C18_demo_struct_fault :
   St.cst (St.run Refuted.L_two [St.Hw [5%Z; 6%Z]; St.Fault [true; false] []; St.ReadS; St.Fault [] []; St.WriteM 1 3%Z]) = [0%Z; 3%Z].
 Proof. vm_compute. repeat split; lia. Qed.
 
+(* class layouts.  An ancestor defines a together with its own check_a, a subclass adds a_min / a_max: the generated limit check
+   is put on the subclass (check_a is inherited, but not in the __dict__ of the subclass) and stands before the inherited one *)
+Definition K (acc par : bool) (u : nat) (mn mx lm : bool) : Li.cls :=
+  {| Li.c_acc := acc; Li.c_param := par; Li.c_user := u; Li.c_min := mn; Li.c_max := mx; Li.c_lim := lm |}.
+Definition L_sub : Li.layout :=
+  {| Li.l_lo := (-10)%Z; Li.l_hi := 10%Z; Li.l_classes := [K true false 0 true true false; K true true 1 false false false] |}.
+Example C18_demo_limits_in_subclass :
+  Li.chain (Li.l_classes L_sub) = [Li.CkAuto; Li.CkUser 1] /\ LemmasLi.layout_wf L_sub /\
+  let s := Li.run L_sub [Li.WriteMin 0%Z] in
+  snd (Li.step L_sub s (Li.WriteA (-6)%Z)) = RErr 1 /\ snd (Li.step L_sub s (Li.WriteA 5%Z)) = ROk [5%Z] /\
+  snd (Li.step L_sub s (Li.WriteA 7%Z)) = RErr 1.
+Proof. vm_compute. repeat split; eauto. Qed.
+(* test_limit_inheritance of the repository: limits in a plain mixin between the module class and the base class, both with
+   a check_a; and limits split over two classes (each gets a generated check) *)
+Example C18_demo_limits_in_mixin :
+  Li.chain [K true false 1 false false false; K false false 0 true true false; K true true 1 false false false]
+    = [Li.CkUser 1; Li.CkAuto; Li.CkUser 1] /\
+  Li.chain [K true false 0 false true false; K true true 0 true false false] = [Li.CkAuto; Li.CkAuto].
+Proof. vm_compute. split; reflexivity. Qed.
+(* the guard of layout_wf is needed: a check_a written in the class that defines the limit and not calling checkLimits replaces
+   the generated check (by design), the limit is then not tested at all *)
+Example C18_demo_user_check_next_to_limit_replaces_generated_check :
+  let L := {| Li.l_lo := (-10)%Z; Li.l_hi := 10%Z; Li.l_classes := [K true true 1 true false false] |} in
+  Li.chain (Li.l_classes L) = [Li.CkUser 1] /\
+  snd (Li.step L (Li.run L [Li.WriteMin 0%Z]) (Li.WriteA (-6)%Z)) = ROk [(-6)%Z].
+Proof. vm_compute. split; reflexivity. Qed.
+(* a member write through a write_<struct> whose hardware takes 5 when 7 is asked for member 0: reply, member, struct and
+   hardware all show 5 *)
+Example C18_demo_struct_member_write_coerced :
+  let '(s, r) := St.step Refuted.L_combined (St.run Refuted.L_combined [St.Coerce [(0, 7%Z, 5%Z)]]) (St.WriteM 0 7%Z) in
+  (r, St.cst s, St.cmem s, St.hw s, rev (St.evs s)) = (ROk [5%Z], [5%Z], [5%Z], [5%Z],
+     [(1, [5%Z]); (0, [5%Z]); (1, [5%Z]); (0, [5%Z]); (1, [5%Z]); (1, [5%Z])]).
+Proof. vm_compute. reflexivity. Qed.
+
 Print Assumptions C18_source_facts.
 Print Assumptions C18_struct_agree_except_unpropagated_assign_and_partial_abort.
 Print Assumptions C18_no_fault_no_partial_abort.
+Print Assumptions C18_struct_member_write_consistent.
 Print Assumptions C18_floatenum_value_from_consistent_init.
 Print Assumptions C18_floatenum_value_after_index_update.
 Print Assumptions C18_closest.
